@@ -11,7 +11,7 @@ from mc.streams import TOKENS, run_reader, item_sigs, exc_sig, LOGCAP
 PROP = "C12"
 CLEAN_ALPHABET = streams.FRAME_TOKENS + streams.NOISE_TOKENS
 ALPHABET = CLEAN_ALPHABET + streams.FRAG_TOKENS
-BASES = [dict(), dict(validate=0, msgmode=1), dict(msgmode=3, parsebitfield=0)]
+BASES = [dict(), dict(validate=0, msgmode=1), dict(msgmode=3, parsebitfield=0), dict(protfilter=5), dict(protfilter=2), dict(protfilter=3, validate=0)]
 _VT = {}
 
 
@@ -71,9 +71,10 @@ def judge(data, base, seq=None, devs=None):
     if seq is not None and not devs and all(TOKENS[t][1] != "frag" for t in seq):
         table = vt(base)
         exp_events = []
+        mask = base.get("protfilter", 7)
         for t in seq:
-            if TOKENS[t][1] != "frame":
-                continue
+            if TOKENS[t][1] != "frame" or not (TOKENS[t][0] & mask):
+                continue  # a frame of a filtered-out protocol is framed and dropped: neither an item nor an error
             v = table[t]
             exp_events.append(("item", TOKENS[t][2]) if v[0] == "ok" else ("err", v[1]))
         got_events = [
@@ -184,7 +185,7 @@ def run_tier(tier, t0):
         PROP, tier, acc, t0, replay_case,
         rule=(
             f"every byte string of length<={L}; every sequence of <= {k} frame/noise tokens (by-construction handler-event oracle) and of <= {kf} "
-            f"tokens incl. fragments (differential only) x quitonerror(3) x handler present/absent (function; under ERR_LOG also a callable object that is falsy); plus, for every sequence of <= 2 tokens starting with a frame, every single short read (the i-th stream call answered with 1 or 2 bytes although more data follows) x {len(BASES)} base configurations. "
+            f"tokens incl. fragments (differential only) x quitonerror(3) x handler present/absent (function; under ERR_LOG also a callable object that is falsy); plus, for every sequence of <= 2 tokens starting with a frame, every single short read (the i-th stream call answered with 1 or 2 bytes although more data follows) x {len(BASES)} base configurations (three of them with a restricted protfilter). "
             "distinct_nontrivial = distinct (items delivered?, handler calls capped at 3) classes"
         ),
         assumptions=[
